@@ -40,13 +40,37 @@ def topo_sort(g):
 
 
 def install_graph_models(ip):
-    def digraph(ip_, edges=()):
-        g = DiGraph(list(edges))
+    def wrap(g):
+        def hook(ip2, memo):
+            # copy.deepcopy of a model copies its graphs: the copy's graph holds the copied nodes
+            from pyvc.models import deep_copy
+            g2 = DiGraph()
+            g2.nodes = [deep_copy(ip2, n, memo) for n in g.nodes]
+            g2.edges = [(deep_copy(ip2, a, memo), deep_copy(ip2, b, memo)) for a, b in g.edges]
+            return wrap(g2)
         return PyObj("DiGraph", g=g, add_nodes_from=PyFn(lambda ip2, ns: [g.add_node(n) for n in ip2.iterate(ns)] and None, "add_nodes_from"),
-                     clear=PyFn(lambda ip2: (g.nodes.clear(), g.edges.clear()) and None, "clear"))
+                     clear=PyFn(lambda ip2: (g.nodes.clear(), g.edges.clear()) and None, "clear"), __deepcopy_hook__=hook)
+
+    def digraph(ip_, edges=()):
+        return wrap(DiGraph(ip_.iterate(edges)))  # a set of edges is iterated in an unspecified order (forks)
 
     ip.models["networkx.DiGraph"] = digraph
     ip.models["networkx.topological_sort"] = lambda ip_, go: topo_sort(go.attrs["g"])
+
+    def reach(go, start, forward):
+        from pyvc.models import SetList
+        g, out, todo = go.attrs["g"], SetList(), [start]
+        while todo:
+            x = todo.pop()
+            for a, b in g.edges:
+                src, dst = (a, b) if forward else (b, a)
+                if src is x and not any(dst is y for y in out):
+                    out.append(dst)
+                    todo.append(dst)
+        return out
+
+    ip.models["networkx.descendants"] = lambda ip_, go, n: reach(go, n, True)
+    ip.models["networkx.ancestors"] = lambda ip_, go, n: reach(go, n, False)
 
     def counter(ip_, xs=()):
         d = {}
@@ -158,7 +182,18 @@ def shape_weakdist(g, per_obs=True):
     return [w, c2]
 
 
+def shape_direct(g, per_obs=True):
+    """a calculation wired DIRECTLY to a variable's value node (not to the variable / its proxy node) - what the deprecated
+    GraphBuilder.transform() builds with _transform_back, or a hand-written Calc(f, v.value_node) - feeding the likelihood"""
+    b = g.var("b", dist=g.dist("Pb"), parameter=True)
+    cvar = g.var("c", dist=g.dist("Pc", per_obs=per_obs), parameter=True)
+    direct = g.calc("f_direct", b.f["_value_node"], name="direct")  # depends on b ONLY, so that nothing else refreshes it
+    y = g.var("y", dist=g.dist("Lik", direct, cvar), observed=True)
+    return [y]
+
+
 SHAPES = {"hier": shape_hier, "diamond": shape_diamond, "flat": shape_flat}
+SHAPES_IFACE = {**SHAPES, "direct": shape_direct}
 SHAPES_C01 = {**SHAPES, "weakdist": shape_weakdist}
 
 
